@@ -41,6 +41,9 @@ class MaskMonitor:
         self.cov, self.out, self.ctx = cov, out, ctx
         self.trail = []
         self.pre = None
+        import random as _r
+
+        self.rnd2 = _r.Random(str(ctx))
 
     def v(self, mech, msg, extra=None):
         if not any(o["mech"] == mech for o in self.out):
@@ -75,6 +78,30 @@ class MaskMonitor:
             if i == action:
                 self.pre = (i, aname, opts, bool(mask[i]), dr, req)
         self.trail.append((game.step_counter, am.action_map.get(action)))
+        # further RL agents of the same game (multi-agent use): their masks are checked the same way, and they act too - two agents
+        # installing / removing software in the SAME step is the interleaving of interest
+        from primaite.game.agent.interface import ProxyAgent
+
+        for name, other in game.agents.items():
+            if other is agent or not isinstance(other, ProxyAgent):
+                continue
+            om = other.action_manager
+            omask = np.asarray(game.action_mask(name)).astype(bool)
+            self.cov.inc("second_agent_mask_compares")
+            for i, (aname, opts) in om.action_map.items():
+                try:
+                    req = om.form_request(aname, opts)
+                except Exception:
+                    continue
+                dr = dry_run(root, req)
+                self.cov.inc("mask_entry_compares")
+                if bool(omask[i]) != (not dr["refused"]):
+                    kind = "mask-forbids-but-not-refused" if not dr["refused"] else f"mask-allows-but-refused/{dr['why']}@{dr.get('level', '-')}-level/{dr['validator']}"
+                    self.v(f"{kind}/second-agent", f"step {game.step_counter}: agent {name}: mask[{i}]={int(omask[i])} for {aname} {opts} but the independent walk of "
+                           f"{req} says refused={dr['refused']} ({dr['why']} at depth {dr['depth']})")
+            churn = [i for i, (a, o) in om.action_map.items() if a in ("node-application-install", "node-application-remove")]
+            rr = self.rnd2.random()
+            other.store_action(self.rnd2.choice(churn) if churn and rr < 0.6 else (self.rnd2.randrange(len(om.action_map)) if rr < 0.85 else 0))
 
     def after_step(self, env, action, res, t):
         if not self.pre:
@@ -173,6 +200,10 @@ class Check:
         for i, pol in enumerate(["collide", "power", "adversarial"] if q else ["collide", "power", "adversarial"] * 4):
             specs.append({"name": f"uc2-fullmap-{pol}-{i}", "src": ["fullmap", {"file": "data_manipulation.yaml", "seed": seed * 10 + i}], "policy": pol,
                           "seed": seed * 100 + 20 + i, "episodes": 1 if q else 2, "steps": 60 if q else 128, "max_len": 60 if q else None, "force_mask": True})
+        for i in range(6 if q else 24):  # two RL agents in one game, both installing / removing software
+            src = ["fullmap", {"file": "data_manipulation.yaml", "seed": seed * 10 + i}] if i % 2 == 0 else ["gen", {"seed": seed * 1000 + 800 + i, "knobs": {"masking": True}}]
+            specs.append({"name": f"two-defenders-{i}", "src": src, "policy": "churn", "seed": seed * 100 + 60 + i, "episodes": 1 if q else 2,
+                          "steps": 80 if q else 128, "max_len": 80 if q else None, "force_mask": True, "two_defenders": True})
         for s in range(64 if q else 320):
             sd = seed * 1000 + s
             specs.append({"name": f"gen-{sd}", "src": ["gen", {"seed": sd, "knobs": {"masking": True, "defender_position": "first" if s % 2 else "last"}}],
@@ -187,6 +218,14 @@ class Check:
             for a in cfg["agents"]:
                 if a.get("type") == "proxy-agent":
                     a.setdefault("agent_settings", {})["action_masking"] = True
+        if spec.get("two_defenders") and isinstance(cfg, dict):
+            import copy as _copy
+
+            i0 = next(i for i, a in enumerate(cfg["agents"]) if a.get("type") == "proxy-agent")
+            second = _copy.deepcopy(cfg["agents"][i0])
+            second["ref"] = cfg["agents"][i0]["ref"] + "_2"
+            second["reward_function"] = {"reward_components": [{"type": "dummy"}]}
+            cfg["agents"].insert(i0 + 1, second)
         mon = MaskMonitor(cov, out, {"scenario": spec["src"], "policy": spec["policy"], "seed": spec["seed"]})
         import primaite.game.game  # noqa: F401  (every validator class is defined once the game module tree is imported)
 
